@@ -223,3 +223,64 @@ func observe(u *Unsupported, pluginBin, out string) []*Observation {
 	}
 	return res
 }
+
+// observeDeterminism (C14, accompanying the solver-decided kernel): the real plugin is run several
+// times on the same request (Go randomises map iteration per process) and on requests whose
+// configuration lists are permuted; the generated file must be byte-identical.
+func observeDeterminism(pluginBin, out string, seed int64) []*Observation {
+	var res []*Observation
+	for _, name := range []string{"P-flags", "P-multi", "P-names", "P-mapopt", "P00"} {
+		base := findProgram(name)
+		o := &Observation{Name: "D-" + name, Mode: "determinism"}
+		res = append(res, o)
+		var file *d.FileDescriptorProto
+		if base.Raw != nil {
+			file = base.Raw()
+		} else {
+			file = base.File().build()
+		}
+		dir := filepath.Join(out, "D-"+name)
+		var first string
+		for run := 0; run < 8; run++ {
+			cfg := base.Cfg()
+			if run >= 4 {
+				// permute every list of the configuration (rotation by run)
+				rot := func(l []string) []string {
+					if len(l) < 2 {
+						return l
+					}
+					k := (run + int(seed)) % len(l)
+					return append(append([]string{}, l[k:]...), l[:k]...)
+				}
+				cfg.Types, cfg.ExcludeFields, cfg.ComputedFields = rot(cfg.Types), rot(cfg.ExcludeFields), rot(cfg.ComputedFields)
+				cfg.RequiredFields, cfg.SensitiveFields = rot(cfg.RequiredFields), rot(cfg.SensitiveFields)
+			}
+			cfgPath := filepath.Join(dir, fmt.Sprintf("cfg%d.yaml", run))
+			writeFile(cfgPath, cfg.yaml())
+			req := buildRequest(file, "config="+cfgPath)
+			if run == 0 {
+				o.Request = filepath.Join(dir, "req.bin")
+				writeFile(o.Request, req)
+			}
+			resp, err := runPlugin(pluginBin, req, filepath.Join(dir, "plugin.log"))
+			if err != nil || len(resp.File) != 1 {
+				o.Failures = append(o.Failures, fmt.Sprintf("run %d: plugin failed: %v", run, err))
+				break
+			}
+			content := resp.File[0].GetContent()
+			if run == 0 {
+				first = content
+				continue
+			}
+			if content != first {
+				kind := "a repeated run on the same request"
+				if run >= 4 {
+					kind = "a run with permuted configuration lists"
+				}
+				o.Failures = append(o.Failures, fmt.Sprintf("run %d (%s) produced a different file (%d vs %d bytes)", run, kind, len(content), len(first)))
+				break
+			}
+		}
+	}
+	return res
+}
